@@ -288,7 +288,7 @@ func c12RunSite(ctx *core.Ctx, site string, ref core.CaseRef, r *rand.Rand, nrow
 	vanText := ""
 	var q c12Pred
 	if site == "where" || site == "when" {
-		q = c12Pred{Join: p.Join}
+		q = c12Pred{Join: p.Join, Joins: p.Joins}
 		ok := true
 		for _, c := range p.Parts {
 			if c.Op == "=" {
